@@ -3,26 +3,47 @@ frontiers match their path-based definitions on every rooted digraph.
 
 Correspondence: the real generic `DominatorTree::new` (harness binary `dom`,
 own node type) vs the extracted Gallina mirror Model.Dom.dominator_tree (run
-under three iteration orders of the candidate set) on (a) every rooted digraph
-with n <= 4 nodes (quick) / n <= 5 (thorough; quick adds seeded slices of the
-n = 5 space), (b) seeded random rooted digraphs with 2..14 nodes, back-edge
-probability swept over 0..0.5, node numbers shuffled, (c) the corpus.
+under three iteration orders of the candidate set) on
+(a) every rooted digraph with n <= 4 nodes (quick) / n <= 5 (thorough; quick
+    adds seeded slices of the n = 5 space),
+(b) seeded random rooted digraphs with 2..14 nodes, back-edge probability swept
+    over 0..0.5, node numbers shuffled,
+(c) [third audit] eleven graph families (lib/props/c15gen.py: reverse-numbered
+    chains, deep chains, joins with many predecessors, nested loops, two-entry
+    rings, ladders, trees with joins, dense and sparse random graphs) at 15..40
+    nodes, at 63/64/65 nodes and at 127/128/129, 255/256/257 and 300 nodes,
+(d) the corpus,
+(e) [third audit] the PRODUCTION node type: control-flow graphs lifted by the
+    real `into_cfg` from generated Circom functions; the graph is read off the
+    basic blocks through the `DirectedGraphNode` trait and the four tables
+    through the `Cfg::get_*` wrappers.
 Oracle of the violation search: Spec.DomSpec.spec_view (dominance by node
 deletion + reachability, idom / children / frontier by their definitions),
-extracted, compared with the implementation on the same graphs."""
+extracted, compared with the implementation on the same graphs up to 65 nodes
+(its list-based reachability is quartic).  Beyond that the reference is the
+mirror itself, which the theorems of props/C15.v prove equal to the definitions
+on every rooted graph under every iteration order.  The hypothesis `rooted g`
+is evaluated on every explored graph by Spec.DomFast.rooted_fast_b (proved
+sound and complete); an explored graph that does not meet it is reported."""
 import concurrent.futures
 import glob
 import json
 import os
 
 import common
+from props import c15gen
 
 MODES = ["mirror", "mirror-rev", "mirror-rot", "spec"]
+MIRRORS = MODES[:3]
 NSLICES = 64     # quick tier: slices of the n = 5 space
-
-
-def sweep_jobs(n, ranges, chunks_per=1):
-    return [(n, lo, hi) for (lo, hi) in ranges]
+SPEC_MAX = 65    # largest graph given to the proved (list based) oracle
+BOUNDARY = [63, 64, 65]
+LARGE = [127, 128, 129, 255, 256, 257, 300]
+# classes of graphs the rule text names: a run in which one of them was never
+# explored is reported (generator gap), see `required_classes`
+REQUIRED = ["self_loop", "irreducible", "in_degree>=9", "in_degree>=65", "depth>=65", "depth>=257",
+            "n=63", "n=64", "n=65", "n=127", "n=128", "n=129", "n=255", "n=256", "n=257", "n>=300",
+            "production_cfg"]
 
 
 def run_sweeps(binary, pre, jobs):
@@ -40,6 +61,46 @@ def run_sweeps(binary, pre, jobs):
     for o in outs:
         res.extend(o)
     return res
+
+
+def run_jobs(specs, timeout=1200):
+    """specs: [(key, binary, args, lines)].  Few but heavy lines: the lines of
+    all specs are cut into chunks of about equal weight (weight = node count
+    cubed), the heaviest chunks start first, NPROC processes at a time over ALL
+    specs together.  Returns {key: output lines in the order of `lines`}.  A
+    process that dies or hangs yields `died` for its lines (a result like any
+    other: it is compared)."""
+    chunks = []
+    for key, binary, args, lines in specs:
+        cur, w = [], 0
+        for k, l in sorted(enumerate(lines), key=lambda kl: -int(kl[1].split()[0])):
+            n = int(l.split()[0])
+            cur.append(k)
+            w += max(n, 8) ** 3
+            if w >= 48 ** 3 or len(cur) >= 40:
+                chunks.append((w, key, binary, args, lines, cur))
+                cur, w = [], 0
+        if cur:
+            chunks.append((w, key, binary, args, lines, cur))
+    chunks.sort(key=lambda c: -c[0])
+
+    def one(c):
+        w, key, binary, args, lines, idx = c
+        ch = [lines[k] for k in idx]
+        try:
+            rc, out, err = common.sh([binary] + args, inp="\n".join(ch) + "\n", timeout=timeout)
+        except Exception:                            # the process hung
+            return key, idx, ["%s = died" % l for l in ch]
+        res = [l for l in out.split("\n") if l]
+        if rc != 0 or len(res) != len(ch):
+            return key, idx, ["%s = died" % l for l in ch]
+        return key, idx, res
+    out = {key: [None] * len(lines) for key, _, _, lines in specs}
+    with concurrent.futures.ThreadPoolExecutor(max_workers=common.NPROC) as ex:
+        for key, idx, res in ex.map(one, chunks):
+            for k, r in zip(idx, res):
+                out[key][k] = r
+    return out
 
 
 def split(lo, hi, parts):
@@ -74,6 +135,55 @@ def random_graph(rng):
     return "%d %s" % (n, " ".join("%d>%d" % e for e in es)), pb
 
 
+def family_graphs(rng, quick):
+    """[(line, family, use_spec)] beyond the exhaustive bound."""
+    out = []
+    names = sorted(c15gen.FAMILIES)
+    # 15..40 nodes, every family
+    for _ in range(1500 if quick else 12000):
+        name = rng.choice(names)
+        n = rng.randrange(15, 41)
+        out.append((c15gen.make(name, n, rng, rng.random() < 0.7), name, n <= c15gen.FAMILIES[name][1]))
+    # around the width of a 64-bit word: every family, in its own numbering and renumbered
+    for n in BOUNDARY:
+        for name in names:
+            for shuffle in (False, True):
+                out.append((c15gen.make(name, n, rng, shuffle), name, n <= c15gen.FAMILIES[name][1]))
+    # around 128 and 256, and 300: the mirror is the reference (see module docstring)
+    for n in LARGE:
+        for name in names:
+            if name in ("dense", "two_level_join") and n > 129:
+                continue                      # tens of thousands of edges: minutes per graph
+            out.append((c15gen.make(name, n, rng, name != "rev_chain" and rng.random() < 0.5), name, False))
+    return out
+
+
+# ---- production node type: generated Circom functions --------------------
+
+def circom_stmt(rng, depth, counter):
+    """One statement of a small Circom function over the variables x, y."""
+    k = rng.random()
+    if depth <= 0 or k < 0.35:
+        counter[0] += 1
+        return "%s = %s + %d;" % (rng.choice("xy"), rng.choice("xy"), counter[0])
+    body = " ".join(circom_stmt(rng, depth - 1, counter) for _ in range(rng.randrange(1, 4)))
+    cond = "%s %s %d" % (rng.choice("xy"), rng.choice(["<", "==", ">"]), rng.randrange(0, 9))
+    if k < 0.6:
+        return "if (%s) { %s }" % (cond, body)
+    if k < 0.8:
+        other = " ".join(circom_stmt(rng, depth - 1, counter) for _ in range(rng.randrange(1, 3)))
+        return "if (%s) { %s } else { %s }" % (cond, body, other)
+    return "while (%s) { %s }" % (cond, body)
+
+
+def circom_function(rng):
+    counter = [0]
+    body = " ".join(circom_stmt(rng, rng.randrange(1, 4), counter) for _ in range(rng.randrange(1, 4)))
+    return "function f(x) { var y = 0; %s return x + y; }" % body
+
+
+# ---- evaluation -----------------------------------------------------------
+
 def edges_line(head):
     """`n code` of the exhaustive enumeration as an explicit edge-list line."""
     n, code = (int(x) for x in head.split())
@@ -82,17 +192,13 @@ def edges_line(head):
 
 
 def rhs(line):
-    return line.split(" = ", 1)[1]
+    return line.split(" = ", 1)[1] if " = " in line else "died"
 
 
-def shape(result):
-    """(depth of the dominator tree, number of nodes with a non-empty frontier)."""
+def fields(result):
     if not result.startswith("dom="):
-        return (0, 0)
-    f = dict(p.split("=", 1) for p in result.split(" "))
-    depth = max(len(s.split(",")) for s in f["dom"].split("|"))
-    nf = sum(1 for s in f["df"].split("|") if s)
-    return (depth, nf)
+        return None
+    return dict(p.split("=", 1) for p in result.split(" "))
 
 
 def corpus_lines():
@@ -103,33 +209,91 @@ def corpus_lines():
     return out
 
 
-def compare(ctx, heads, impl, by_mode, disagreements, failing, nontrivial, stats):
-    for k, head in enumerate(heads):
-        ri = impl[k]
-        rs = by_mode["spec"][k]
-        for m in MODES[:3]:
-            if by_mode[m][k] != ri:
-                disagreements.append({"case": head, "impl": ri, "model": by_mode[m][k], "order": m})
-                break
-        if rs == "unrooted":
-            stats["unrooted"] = stats.get("unrooted", 0) + 1
-            continue
-        if ri != rs:
-            failing.append({"case": head, "impl": ri, "spec": rs})
-        d, nf = shape(ri)
-        stats["depth"][d] = stats["depth"].get(d, 0) + 1
-        if nf > 0:
-            nontrivial.add(ri)
+class Tally:
+    def __init__(self):
+        self.disagreements = []
+        self.failing = []
+        self.nontrivial = set()
+        self.depth = {}
+        self.indeg = {}
+        self.classes = {k: 0 for k in REQUIRED}
+        self.sizes = {}
+        self.unrooted = []          # explored graphs outside the hypothesis `rooted`
+        self.rooted_evaluated = 0
+        self.rooted_tests_disagree = []
+        self.spec_judged = 0
+        self.mirror_judged = 0
+
+    def note_shape(self, line, ref):
+        f = fields(ref)
+        if f is None:
+            return
+        n, indeg, selfloop, irreducible, depth = c15gen.features(line, f["dom"])
+        self.depth[depth] = self.depth.get(depth, 0) + 1
+        self.indeg[indeg] = self.indeg.get(indeg, 0) + 1
+        c = self.classes
+        c["self_loop"] += selfloop
+        c["irreducible"] += irreducible
+        c["in_degree>=9"] += indeg >= 9
+        c["in_degree>=65"] += indeg >= 65
+        c["depth>=65"] += depth >= 65
+        c["depth>=257"] += depth >= 257
+        if "n=%d" % n in c:
+            c["n=%d" % n] += 1
+        c["n>=300"] += n >= 300
+        if sum(1 for s in f["df"].split("|") if s) > 0:
+            self.nontrivial.add(ref)
+
+    def case(self, line, impl, mirrors, spec, rooted, shape=True):
+        """One explored graph.  `spec` is None when the proved oracle was not
+        run (too large); `rooted` is None in the sweeps (both sides list only
+        the graphs their own filters accept, and the lists are compared)."""
+        bad_mirror = next((m for m in MIRRORS if mirrors[m] != impl), None)
+        if bad_mirror:
+            self.disagreements.append({"case": line, "impl": impl, "model": mirrors[bad_mirror], "order": bad_mirror})
+        if rooted is not None:
+            self.rooted_evaluated += 1
+            if spec is not None and (spec == "unrooted") != (rooted == "unrooted"):
+                self.rooted_tests_disagree.append({"case": line, "rooted_b": spec == "unrooted", "rooted_fast_b": rooted})
+            if rooted != "rooted":
+                self.unrooted.append(line)
+                return
+        if spec == "unrooted":
+            self.unrooted.append(line)
+            return
+        if spec is not None:
+            self.spec_judged += 1
+            if impl != spec:
+                self.failing.append({"case": line, "impl": impl, "spec": spec, "spec_source": "Spec.DomSpec.spec_view"})
+            ref = spec
+        else:
+            self.mirror_judged += 1
+            ref = mirrors["mirror"]
+            if len(set(mirrors.values())) != 1:
+                # the theorems say this cannot happen on a rooted graph
+                self.disagreements.append({"case": line, "impl": impl, "model": "the three iteration orders of the mirror differ",
+                                           "order": "mirror"})
+            elif impl != ref:
+                self.failing.append({"case": line, "impl": impl, "spec": ref,
+                                     "spec_source": "Model.Dom.dominator_tree (equal to the definitions on rooted graphs: "
+                                                    "C15_dominators_exact, C15_idom_exact, C15_dom_tree_children_invert_idom_all, "
+                                                    "C15_frontier_exact; the graph passed rooted_fast_b)"})
+        if shape:
+            self.note_shape(line, ref)
 
 
 def run(ctx, proofs):
     HARNESS_BIN = common.build_harness("dom")
     MODEL_BIN = common.build_model("dom")
     quick = ctx.tier == "quick"
-    disagreements, failing = [], []
-    nontrivial = set()
-    stats = {"depth": {}}
+    T = Tally()
     evaluations = 0
+    import time
+    t0 = [time.time()]
+
+    def lap(what):
+        common.log("C15 %s: %.1fs" % (what, time.time() - t0[0]))
+        t0[0] = time.time()
     # (a) exhaustive sweeps: both sides enumerate the same space in the same order
     jobs = []
     top = 4 if quick else 5
@@ -152,59 +316,154 @@ def run(ctx, proofs):
             raise common.BuildError("sweep outputs of harness and model (%s) do not list the same graphs" % m,
                                     "first difference at line %d: %r vs %r" % (k, heads_i[k:k + 1], heads_m[k:k + 1]))
     n_sweep = len(impl)
-    compare(ctx, [edges_line(h) for h in heads_i], [rhs(l) for l in impl], {m: [rhs(l) for l in by_mode[m]] for m in MODES},
-            disagreements, failing, nontrivial, stats)
+    for k, h in enumerate(heads_i):
+        line = edges_line(h)
+        # shapes of the exhaustive part are counted up to n = 4 (the slices of n = 5 would double the run time)
+        T.case(line, rhs(impl[k]), {m: rhs(by_mode[m][k]) for m in MIRRORS}, rhs(by_mode["spec"][k]), None,
+               shape=not h.startswith("5 ") or not quick)
     evaluations += n_sweep
-    # (b) seeded random rooted digraphs, (c) corpus
-    nrand = 25000 if quick else 150000
+    lap("sweeps")
+
+    # (b) seeded random rooted digraphs, (d) corpus: all four model modes + rootedness
+    nrand = 20000 if quick else 150000
     gen = [random_graph(ctx.rng) for _ in range(nrand)]
-    lines = corpus_lines() + [g for g, _ in gen]
+    corpus = corpus_lines()
+    lines = corpus + [g for g, _ in gen]
     pb_hist = {}
     for _, pb in gen:
         pb_hist[str(pb)] = pb_hist.get(str(pb), 0) + 1
     impl_r = common.run_lines(HARNESS_BIN, [], lines, shards=common.NPROC)
-    by_mode_r = {m: common.run_lines(MODEL_BIN, [m], lines, shards=common.NPROC) for m in MODES}
-    if any(len(by_mode_r[m]) != len(lines) for m in MODES) or len(impl_r) != len(lines):
+    by_mode_r = {m: common.run_lines(MODEL_BIN, [m], lines, shards=common.NPROC) for m in MODES + ["rooted"]}
+    if any(len(by_mode_r[m]) != len(lines) for m in by_mode_r) or len(impl_r) != len(lines):
         raise common.BuildError("line-mode outputs are incomplete", "%d lines, impl %d" % (len(lines), len(impl_r)))
-    compare(ctx, lines, [rhs(l) for l in impl_r], {m: [rhs(l) for l in by_mode_r[m]] for m in MODES},
-            disagreements, failing, nontrivial, stats)
+    for k, line in enumerate(lines):
+        T.case(line, rhs(impl_r[k]), {m: rhs(by_mode_r[m][k]) for m in MIRRORS}, rhs(by_mode_r["spec"][k]), rhs(by_mode_r["rooted"][k]))
     evaluations += len(lines)
-    sizes = {}
-    for l in lines:
+    lap("random small graphs and corpus")
+
+    # (c) families beyond the exhaustive bound
+    fam = family_graphs(ctx.rng, quick)
+    order = list(range(len(fam)))
+    ctx.rng.shuffle(order)
+    fam = [fam[i] for i in order]
+    flines = [f[0] for f in fam]
+    idx_spec = [k for k, f in enumerate(fam) if f[2]]
+    res = run_jobs([("impl", HARNESS_BIN, [], flines)] + [(m, MODEL_BIN, [m], flines) for m in MIRRORS + ["rooted"]]
+                   + [("spec", MODEL_BIN, ["spec"], [flines[k] for k in idx_spec])])
+    impl_f, mir_f, root_f, spec_out = res["impl"], {m: res[m] for m in MIRRORS}, res["rooted"], res["spec"]
+    spec_f = {k: rhs(spec_out[j]) for j, k in enumerate(idx_spec)}
+    fam_hist = {}
+    for k, (line, name, use_spec) in enumerate(fam):
+        fam_hist[name] = fam_hist.get(name, 0) + 1
+        T.case(line, rhs(impl_f[k]), {m: rhs(mir_f[m][k]) for m in MIRRORS}, spec_f.get(k), rhs(root_f[k]))
+    evaluations += len(fam)
+    lap("families")
+
+    # (e) the production node type
+    nprog = 300 if quick else 2000
+    progs = [circom_function(ctx.rng) for _ in range(nprog)]
+    cfg_out = common.run_lines(HARNESS_BIN, ["cfg"], progs, shards=common.NPROC)
+    if len(cfg_out) != len(progs):
+        raise common.BuildError("cfg-mode output is incomplete", "%d programs, %d lines" % (len(progs), len(cfg_out)))
+    cfg_cases, cfg_skipped = [], {}
+    for src, o in zip(progs, cfg_out):
+        if " = " in o and o.split(" = ", 1)[0].split()[0].isdigit():
+            cfg_cases.append((src, o.split(" = ", 1)[0], rhs(o)))
+        else:
+            cfg_skipped[o[:40]] = cfg_skipped.get(o[:40], 0) + 1
+    glines = [c[1] for c in cfg_cases]
+    idx_c = [k for k, g in enumerate(glines) if int(g.split()[0]) <= 40]
+    by_mode_c = run_jobs([(m, MODEL_BIN, [m], glines) for m in MIRRORS + ["rooted"]]
+                         + [("spec", MODEL_BIN, ["spec"], [glines[k] for k in idx_c])])
+    spec_c_out = by_mode_c["spec"]
+    spec_c = {k: rhs(spec_c_out[j]) for j, k in enumerate(idx_c)}
+    prod_sizes = {}
+    for k, (src, gline, res) in enumerate(cfg_cases):
+        before = len(T.failing), len(T.disagreements), len(T.unrooted)
+        T.case(gline, res, {m: rhs(by_mode_c[m][k]) for m in MIRRORS}, spec_c.get(k), rhs(by_mode_c["rooted"][k]))
+        for lst, b in zip((T.failing, T.disagreements), before):
+            for item in lst[b:]:
+                item["circom"] = src          # replayed through the production path
+        n = gline.split()[0]
+        prod_sizes[n] = prod_sizes.get(n, 0) + 1
+    T.classes["production_cfg"] = sum(1 for c in cfg_cases if int(c[1].split()[0]) >= 4)
+    evaluations += len(cfg_cases)
+    lap("production graphs")
+
+    for l in lines + flines + glines:
         k = l.split()[0]
-        sizes[k] = sizes.get(k, 0) + 1
-    # verdict
+        T.sizes[k] = T.sizes.get(k, 0) + 1
+
+    # ---- verdict ----
+    failing, disagreements = T.failing, T.disagreements
     for f in failing[:5]:
-        ctx.violation("dominator tree of the rooted digraph `%s` differs from the path-based definition: implementation %s, definition %s"
-                      % (f["case"], f["impl"], f["spec"]), {"input": f["case"], "impl": f["impl"], "spec": f["spec"]})
+        more = "" if len(failing) <= 5 else " (%d failing graphs in all, the first five are reported)" % len(failing)
+        rep = {"input": f["case"], "impl": f["impl"], "spec": f["spec"], "spec_source": f["spec_source"]}
+        if "circom" in f:
+            rep["circom"] = f["circom"]
+        ctx.violation("dominator tree of the rooted digraph `%s`%s differs from the path-based definition: implementation %s, definition %s%s"
+                      % (f["case"][:400], " (control-flow graph of `%s`)" % f["circom"] if "circom" in f else "",
+                         f["impl"][:600], f["spec"][:600], more), rep)
     if not failing:
         if disagreements:
             d = disagreements[0]
             ctx.violation("correspondence Model.Dom.dominator_tree vs dominator_tree.rs broken (%d cases, first: %s impl=%s model=%s); "
-                          "the definition held on every explored rooted graph" % (len(disagreements), d["case"], d["impl"], d["model"]),
+                          "the definition held on every explored rooted graph" % (len(disagreements), d["case"][:300], d["impl"][:300], d["model"][:300]),
                           {"broken": "correspondence dom (Model.Dom.dominator_tree)", "first": d, "count": len(disagreements)}, no_input=True)
         elif proofs["failures"]:
             ctx.violation("proof obligations of C15 no longer check: " + "; ".join(proofs["failures"])[:500],
                           {"broken": "props/C15.v", "failures": proofs["failures"]}, no_input=True)
+    # hypotheses and machinery: never silent
+    if T.unrooted:
+        ctx.violation("hypothesis `rooted g` of the C15 theorems is not met by %d explored graph(s) (every generator is meant to "
+                      "produce rooted graphs; the production graphs are meant to be rooted by C12), first: %s"
+                      % (len(T.unrooted), T.unrooted[0][:300]),
+                      {"broken": "hypothesis rooted (Spec.DomFast.rooted_fast_b)", "first": T.unrooted[0], "count": len(T.unrooted)}, no_input=True)
+    if T.rooted_tests_disagree:
+        ctx.violation("rooted_b and rooted_fast_b, proved equivalent (C15_rooted_b_exact, C15_rooted_fast_b_exact), disagree on %d graph(s): "
+                      "extraction or driver fault" % len(T.rooted_tests_disagree),
+                      {"broken": "model driver dom (rooted vs spec)", "first": T.rooted_tests_disagree[0]}, no_input=True)
+    missing = [k for k in REQUIRED if T.classes[k] == 0]
+    if missing:
+        ctx.violation("the generators of C15 never produced a graph of the class(es) %s named in the rule text" % ", ".join(missing),
+                      {"broken": "generator coverage of C15", "missing": missing, "cfg_mode_skipped": cfg_skipped}, no_input=True)
+
+    ncorp = len(corpus)
     ctx.coverage.update({
         "evaluations": evaluations,
-        "distinct_nontrivial": len(nontrivial),
+        "distinct_nontrivial": len(T.nontrivial),
         "rule": "every digraph on n <= %d nodes without edges into node 0 in which all nodes are reachable from 0 "
                 "(self loops, irreducible loops, parallel joins included)%s, plus %d seeded random rooted digraphs with 2..14 nodes "
                 "(spanning tree from 0 of random depth, forward/cross edges, per-node back-edge probability from "
-                "{0,.05,.1,.2,.3,.4,.5}, node numbers shuffled) and the corpus; distinct-nontrivial = distinct result "
-                "(dominator sets, idom, children, frontiers) among graphs with at least one non-empty dominance frontier"
-                % (top, ", plus %d seeded slices of 2048" % NSLICES + " consecutive edge sets of the n = 5 space" if quick else "", nrand),
+                "{0,.05,.1,.2,.3,.4,.5}, node numbers shuffled), plus %d graphs of eleven families (lib/props/c15gen.py) with 15..40 "
+                "nodes, with 63/64/65 nodes and with 127/128/129/255/256/257/300 nodes, plus the control-flow graphs of %d generated "
+                "Circom functions read through the production node type and the Cfg::get_* wrappers, plus the corpus; "
+                "distinct-nontrivial = distinct result (dominator sets, idom, children, frontiers) among graphs with at least one "
+                "non-empty dominance frontier"
+                % (top, ", plus %d seeded slices of 2048" % NSLICES + " consecutive edge sets of the n = 5 space" if quick else "",
+                   nrand, len(fam), len(cfg_cases)),
         "exhaustive": False,
         "exhaustive_part": "all rooted digraphs with n <= %d: %d graphs%s" % (
             top, n_sweep - (sum(1 for h in heads_i if h.startswith("5 ")) if quick else 0),
             " (+ %d rooted graphs from the n = 5 slices)" % sum(1 for h in heads_i if h.startswith("5 ")) if quick else ""),
         "samples": [disagreements[0]] if disagreements else [
-            edges_line(heads_i[len(impl) // 3]) + " = " + rhs(impl[len(impl) // 3]), impl_r[len(corpus_lines())], impl_r[-1]],
-        "random_graph_sizes": sizes,
+            edges_line(heads_i[len(impl) // 3]) + " = " + rhs(impl[len(impl) // 3]), impl_r[ncorp], impl_r[-1],
+            (cfg_cases[0][0] + " -> " + cfg_cases[0][1] + " = " + cfg_cases[0][2]) if cfg_cases else "no production graph"],
+        "graph_sizes_beyond_the_sweep": T.sizes,
+        "family_histogram": fam_hist,
+        "production_cfg_sizes": prod_sizes,
+        "production_programs_without_cfg": cfg_skipped,
         "back_edge_probability_histogram": pb_hist,
-        "dominator_tree_depth_histogram": {str(k): v for k, v in sorted(stats["depth"].items())},
-        "unrooted_inputs_skipped_by_oracle": stats.get("unrooted", 0),
+        "dominator_tree_depth_histogram": {str(k): v for k, v in sorted(T.depth.items())},
+        "max_in_degree_histogram": {str(k): v for k, v in sorted(T.indeg.items())},
+        "classes_explored": T.classes,
+        "hypothesis_rooted": {"evaluated_by_rooted_fast_b": T.rooted_evaluated,
+                              "evaluated_by_rooted_b_in_sweeps": n_sweep,
+                              "not_met": len(T.unrooted)},
+        "hypothesis_order_ok": "proved for the three orders the mirror is run under (C15_orders_ok); that the hash order of the "
+                               "real HashSet iteration is a permutation of the members is assumed",
+        "judged_by_proved_oracle": T.spec_judged,
+        "judged_by_mirror_only": T.mirror_judged,
         "iteration_orders_of_candidate_set": ["ascending", "descending", "rotated by block index"],
         "disagreements_model_vs_impl": len(disagreements),
         "spec_failures": len(failing),
@@ -212,11 +471,15 @@ def run(ctx, proofs):
     })
     ctx.assumptions += [
         "std::collections::HashSet<usize> behaves as a finite set (insert, remove, contains, len, ==, intersection, union, "
-        "difference), modelled by N bit masks: observed by the correspondence, not proved",
+        "difference, iteration = some permutation of the members), modelled by N bit masks: observed by the correspondence, not proved",
         "the harness node type gives predecessor/successor sets that mirror each other; graphs with unreachable nodes or "
-        "edges into node 0 are outside the property (there the result depends on the hash order) and are not compared",
-        "cargo/rustc compile DominatorTree::new for the harness node type as for the CFG basic blocks (the function is generic; "
-        "the production instantiation is exercised by C12-C14, not here)",
+        "edges into node 0 are outside the property (there the result depends on the hash order) and are not generated; an explored "
+        "graph that fails the proved rootedness test is reported",
+        "graphs with more than %d nodes are judged against the mirror (proved equal to the definitions on rooted graphs), not "
+        "against the separately extracted oracle, whose list-based reachability is quartic" % SPEC_MAX,
+        "the production instantiation DominatorTree<BasicBlock> is compared on the control-flow graphs of generated functions "
+        "(if / if-else / while over two variables, at most %d blocks); the generic function cannot tell the node types apart"
+        % max([int(k) for k in prod_sizes] or [0]),
     ]
 
 
@@ -227,8 +490,30 @@ def replay(ctx, rep):
     if not line:
         print("replay names a broken obligation, not an input:", rep.get("broken"))
         return 1
-    out = common.run_lines(HARNESS_BIN, [], [line])
-    spec = common.run_lines(MODEL_BIN, ["spec"], [line])
-    print("implementation:", out[0])
-    print("specification :", spec[0])
-    return 0 if out[0] == spec[0] else 1
+    n = int(line.split()[0])
+    ok = True
+    if rep.get("circom"):
+        out = common.run_lines(HARNESS_BIN, ["cfg"], [rep["circom"]])
+        print("production path:", out[0][:2000])
+        if " = " in out[0]:
+            line = out[0].split(" = ", 1)[0]
+            impl = rhs(out[0])
+        else:
+            return 1
+    else:
+        impl = rhs(common.run_lines(HARNESS_BIN, [], [line])[0])
+    rooted = rhs(common.run_lines(MODEL_BIN, ["rooted"], [line])[0])
+    print("graph         :", line[:2000])
+    print("hypothesis    :", rooted)
+    print("implementation:", impl[:4000])
+    if n <= SPEC_MAX:
+        spec = rhs(common.run_lines(MODEL_BIN, ["spec"], [line], timeout=1800)[0])
+        print("specification :", spec[:4000])
+        ok = ok and impl == spec
+    else:
+        for m in MIRRORS:
+            mir = rhs(common.run_lines(MODEL_BIN, [m], [line])[0])
+            print("%-14s: %s" % (m, mir[:4000]))
+            ok = ok and impl == mir
+        print("(more than %d nodes: the reference is the mirror, proved equal to the definitions on rooted graphs)" % SPEC_MAX)
+    return 0 if ok and rooted == "rooted" else 1
